@@ -1,10 +1,201 @@
-(* C14/Props.v -- the property theorems, and nothing else. *)
+(* C14/Props.v -- the property theorems, and nothing else.
+   export_with tinds cinds x factor rate is the model of everything EphysAlfCreator.convert() writes as VALUES
+   (PV.C14.Model), given the channel rows chosen by the two np.argsort loops; export argsort x factor rate is the
+   exporter with an argsort oracle.  Stored arrays over Z, results over QN = option Q (None = NaN), every size. *)
 From Coq Require Import ZArith QArith List Bool Arith Lia.
-From PV Require Import C09.Model C09.Spec C14.Model C14.Spec C14.Proofs1.
+From PV Require C12.Model.
+From PV Require Import C09.Model C09.Spec C14.Model C14.Spec C14.Proofs1 C14.Proofs2 C14.Proofs3 C14.Proofs4
+                       C14.Proofs5 C14.Proofs6.
 Import ListNotations.
 Open Scope Z_scope.
 
-Theorem C14_set_nan : forall idx (l : list QN) n v, nth_error l n = Some v ->
-  nth_error (set_nan idx l) n = Some (if memZ (Z.of_nat n) idx then None else v).
-Proof. exact set_nan_nth. Qed.
-Print Assumptions C14_set_nan.
+(* Exported template AND cluster waveforms: for waveform n (stored, whitened, as t), with v the mean scaled
+   amplitude of its member spikes before the unit factor (the exported templates.amps / clusters.amps entry is
+   v * factor) and au the largest channel peak-to-peak of the unwhitened waveform, the value in sample s,
+   column j is   (sum_k t[s][k] * wmi[k][c]) * (v / au) * factor   where c is the channel listed in column j.
+   For whatever channel rows the argsort loops produced (in particular those of export argsort). *)
+Theorem C14_waveforms : forall tinds cinds x f r y, export_with tinds cinds x f r = Some y ->
+  (forall n t inds, nth_error (x_tdata x) n = Some t -> nth_error tinds n = Some inds ->
+     exists v au, IsPeakAmp (unwh (x_wmi x) t) (length t) (length (x_wmi x)) au /\
+                  nth_error (y_tamps y) n = Some (q_mul v f) /\
+                  Wave_Spec (x_wmi x) t v au f inds (nth n (y_twave y) [])) /\
+  (forall n t inds, nth_error (x_cdata x) n = Some t -> nth_error cinds n = Some inds ->
+     exists v au, IsPeakAmp (unwh (x_wmi x) t) (length t) (length (x_wmi x)) au /\
+                  nth_error (y_camps y) n = Some (q_mul v f) /\
+                  Wave_Spec (x_wmi x) t v au f inds (nth n (y_cwave y) [])).
+Proof. exact waveforms_thm. Qed.
+Print Assumptions C14_waveforms.
+
+(* Listed channels, for EVERY function np.argsort may be (a sorting permutation; ties undetermined): one row
+   per template / cluster; the row of waveform n is Listed_Spec for the peak channel p of the stored waveform
+   (phylib's templates_channels / clusters_channels): min(n_closest_channels, n_channels) distinct channels,
+   the channels of p's probe first, by non-decreasing L1 distance to p, none of the unlisted channels of the
+   probe closer than a listed one (and no other-probe channel listed while one of the probe is not), p first
+   whenever no other channel of the probe sits at p's position. *)
+Theorem C14_channels : forall argsort, Argsort_ok argsort ->
+  forall x f r y, export argsort x f r = Some y ->
+  length (y_tchan y) = length (x_tdata x) /\ length (y_cchan y) = length (x_cdata x) /\
+  (forall n t, nth_error (x_tdata x) n = Some t ->
+     exists p, IsPeakChannel (entry t) (length t) (length (x_wmi x)) p /\
+               Listed_Spec (x_pos x) (x_probes x) (length (x_wmi x)) (ncw_of x) p (nth n (y_tchan y) [])) /\
+  (forall n t, nth_error (x_cdata x) n = Some t ->
+     exists p, IsPeakChannel (entry t) (length t) (length (x_wmi x)) p /\
+               Listed_Spec (x_pos x) (x_probes x) (length (x_wmi x)) (ncw_of x) p (nth n (y_cchan y) [])).
+Proof. exact channels_thm14. Qed.
+Print Assumptions C14_channels.
+
+(* the contract assumed of argsort is met by a concrete (stable insertion) argsort: the theorem above is not vacuous *)
+Theorem C14_argsort_contract_inhabited : Argsort_ok isort_arg.
+Proof. exact isort_arg_ok. Qed.
+Print Assumptions C14_argsort_contract_inhabited.
+
+(* Amplitudes carry the unit factor: spikes.amps[k] = stored amplitude * largest peak-to-peak of the spike's
+   unwhitened template * factor; templates.amps[n] * #members = sum of the members' spikes.amps (NaN without
+   members); clusters.amps likewise over the cluster waveforms and spike_clusters (C09's statements, through
+   the exporter). *)
+Theorem C14_amp_units : forall tinds cinds x (factor : Q) r y, export_with tinds cinds x (Some factor) r = Some y ->
+  Spec_spike_amps (t_amp_in x) factor (y_samps y) /\
+  Spec_template_amps (t_amp_in x) (y_samps y) (y_tamps y) /\
+  exists samps_c, Spec_spike_amps (c_amp_in x) factor samps_c /\ Spec_template_amps (c_amp_in x) samps_c (y_camps y).
+Proof. exact amp_units_thm. Qed.
+Print Assumptions C14_amp_units.
+
+(* clusters.depths[n] = y coordinate of the peak channel of cluster waveform n (= clusters.channels[n]), NaN for
+   the ids alf.py marks (model_nan_idx, characterised by C14_nan_ids) *)
+Theorem C14_cluster_depths : forall tinds cinds x f r y, export_with tinds cinds x f r = Some y ->
+  length (y_cdepths y) = length (x_cdata x) /\ length (y_cpeak y) = length (x_cdata x) /\
+  forall n t, nth_error (x_cdata x) n = Some t ->
+    exists c, IsPeakChannel (entry t) (length t) (length (x_wmi x)) c /\
+              nth_error (y_cpeak y) n = Some (Z.of_nat c) /\
+              nth_error (y_cdepths y) n =
+              Some (if memZ (Z.of_nat n) (model_nan_idx (x_st x) (x_sc x)) then None
+                    else Some (inject_Z (posy (x_pos x) c))).
+Proof. exact cluster_depths_thm. Qed.
+Print Assumptions C14_cluster_depths.
+
+(* the ids set to NaN (get_merge_map's nan_idx, transcribed with its dictionary and loops): when some spike
+   changed cluster, exactly the ids 0 .. max(spike_clusters) that no spike carries; when none did (the cluster
+   waveforms are then the template waveforms, which exist for ids without spikes too), none *)
+Theorem C14_nan_ids : forall st sc, length sc = length st -> (forall s, In s sc -> 0 <= s) ->
+  (sc = st -> model_nan_idx st sc = []) /\
+  (sc <> st -> forall c, In c (model_nan_idx st sc) <-> 0 <= c <= lmax sc /\ ~ In c sc).
+Proof. exact model_nan_idx_thm. Qed.
+Print Assumptions C14_nan_ids.
+
+(* spikes.depths: with a feature row per spike, C09's feature-weighted depth (depth * sum w = sum y * w,
+   NaN iff sum w = 0); without features, or with features for a subset of the spikes, the depth of the
+   spike's cluster *)
+Theorem C14_spike_depths : forall tinds cinds x f r y, export_with tinds cinds x f r = Some y ->
+  match x_feat x with
+  | Some (data, cols) =>
+      if Nat.eqb (length data) (Z.to_nat (x_nspikes x))
+      then (forall s, In s data -> (1 <= length s)%nat) -> Spec_depths (x_depth_in x) data cols (y_sdepths y)
+      else True
+  | None => True
+  end /\
+  ((match x_feat x with Some (data, _) => length data <> Z.to_nat (x_nspikes x) | None => True end) ->
+   length (y_sdepths y) = length (x_sc x) /\
+   forall k s, nth_error (x_sc x) k = Some s ->
+               nth_error (y_sdepths y) k = nth_error (y_cdepths y) (Z.to_nat s)).
+Proof. exact spike_depths_thm. Qed.
+Print Assumptions C14_spike_depths.
+
+(* clusters.peakToTrough[n] = (first arg-max - first arg-min over the samples of the peak channel) / rate * 1000,
+   NaN for the marked ids *)
+Theorem C14_durations : forall tinds cinds x f (rate : Q) y, ~ (rate == 0)%Q ->
+  export_with tinds cinds x f (Some rate) = Some y ->
+  length (y_p2t y) = length (x_cdata x) /\
+  forall n t, nth_error (x_cdata x) n = Some t ->
+    if memZ (Z.of_nat n) (model_nan_idx (x_st x) (x_sc x)) then nth_error (y_p2t y) n = Some None
+    else exists c imax imin q, IsPeakChannel (entry t) (length t) (length (x_wmi x)) c /\
+           IsArgmaxFirst imax (column (entry t) (length t) c) /\
+           IsArgminFirst imin (column (entry t) (length t) c) /\
+           nth_error (y_p2t y) n = Some (Some q) /\
+           (q == inject_Z (Z.of_nat imax - Z.of_nat imin) / rate * inject_Z 1000)%Q.
+Proof. exact durations_thm14. Qed.
+Print Assumptions C14_durations.
+
+(* Raw indices: make_channel_objects (repaired) applied to what Merger.write_channel_data (C12's model
+   channel_data) wrote for the probe channel maps cms -- ANY number of probes, any integer maps -- gives back the
+   concatenation of the probes' own maps, and restricted to probe k it is probe k's map *)
+Theorem C14_rawind : forall (cms : list (list Z)) (co : C12.Model.chan_out),
+  C12.Model.channel_data cms = Some co ->
+  raw_ind (C12.Model.co_probe co) (C12.Model.co_map co) = concat cms /\
+  forall k, (k < length cms)%nat ->
+    sel (C12.Model.co_probe co) (raw_ind (C12.Model.co_probe co) (C12.Model.co_map co)) (Z.of_nat k) = nth k cms [].
+Proof.
+  intros cms co H. split; [now apply rawind_thm|]. intros k Hk. now apply rawind_per_probe_thm.
+Qed.
+Print Assumptions C14_rawind.
+
+(* ... and that is what the exporter writes as channels.rawInd for a loaded merged dataset *)
+Theorem C14_export_rawind : forall tinds cinds x f r y (cms : list (list Z)) (co : C12.Model.chan_out),
+  export_with tinds cinds x f r = Some y -> C12.Model.channel_data cms = Some co ->
+  x_probes x = C12.Model.co_probe co -> x_cmap x = C12.Model.co_map co ->
+  y_rawind y = concat cms.
+Proof.
+  intros tinds cinds x f r y cms co H Hc Ep Em.
+  destruct (export_with_inv _ _ _ _ _ _ H) as (a & b & c & d & E).
+  rewrite (ex_raw _ _ _ _ _ _ _ _ _ _ E), Ep, Em. now apply rawind_thm.
+Qed.
+Print Assumptions C14_export_rawind.
+
+(* Why the repair was needed: the arithmetic before the fix commit (channel_offset += max) does not invert the
+   merge from the third probe on -- the witness of DESIGN.md section 9 *)
+Theorem C14_rawind_old_refuted : exists (cms : list (list Z)) (co : C12.Model.chan_out),
+  C12.Model.channel_data cms = Some co /\
+  raw_ind_old (C12.Model.co_probe co) (C12.Model.co_map co) <> concat cms.
+Proof.
+  exists [[2; 0; 1]; [1; 3; 0; 2]; [0; 1]].
+  eexists. split; [vm_compute; reflexivity|]. vm_compute. discriminate.
+Qed.
+Print Assumptions C14_rawind_old_refuted.
+
+(* ---- non-vacuity: concrete, non-trivial instances ---- *)
+Definition qred (x : QN) : QN := match x with Some q => Some (Qred q) | None => None end.
+(* 3 templates x 2 samples x 4 channels; channels 0,1,2 form a column on probe 0 (channel 1 in the middle: a
+   distance tie between 0 and 2), channel 3 is on probe 1; the spike of template 2 was moved to cluster 4, so
+   cluster ids 2 and 3 have no spike; inverse whitening matrix not symmetric; factor 2.5, rate 1000 *)
+Definition ex_x : alf_in := mk_alf_in
+  [ [[0; 4; 0; 0]; [0; -2; 1; 0]] ; [[3; 0; 0; 0]; [-3; 1; 0; 0]] ; [[0; 0; 0; 5]; [0; 0; 0; -1]] ]
+  [ [[0; 4; 0; 0]; [0; -2; 1; 0]] ; [[3; 0; 0; 0]; [-3; 1; 0; 0]] ; [[0; 0; 0; 0]; [0; 0; 0; 0]] ;
+    [[0; 0; 0; 0]; [0; 0; 0; 0]] ; [[0; 0; 0; 5]; [0; 0; 0; -1]] ]
+  [[1; 0; 0; 0]; [0; 2; 0; 0]; [0; 1; 1; 0]; [0; 0; 0; 1]]
+  [0; 1; 2; 0] [0; 1; 4; 0] [2; 3; 1; 4] 3 5
+  [0; 0; 0; 1] [[0; 20]; [0; 40]; [0; 60]; [32; 0]] [2; 0; 1; 3]
+  None 4 12.
+Definition ex_y := export isort_arg ex_x (Some (5 # 2)) (Some (inject_Z 1000)).
+Example C14_ex_channels_rawind :
+  option_map (fun y => (y_tchan y, y_cpeak y, y_rawind y)) ex_y =
+  Some ([[1; 0; 2; 3]; [0; 1; 2; 3]; [3; 0; 1; 2]]%nat, [1; 0; 0; 0; 3], [2; 0; 1; 1]).
+Proof. vm_compute. reflexivity. Qed.
+Example C14_ex_amps :
+  option_map (fun y => (map qred (y_samps y), map qred (y_tamps y), map qred (y_camps y))) ex_y =
+  Some ([Some 55; Some 45; Some 15; Some 110], [Some (165 # 2); Some 45; Some 15],
+        [Some (165 # 2); Some 45; None; None; Some 15])%Q.
+Proof. vm_compute. reflexivity. Qed.
+Example C14_ex_depths_durations :
+  option_map (fun y => (map qred (y_p2t y), map qred (y_cdepths y), map qred (y_sdepths y))) ex_y =
+  Some ([Some (-1 # 1); Some (-1 # 1); None; None; Some (-1 # 1)], [Some 40; Some 20; None; None; Some 0],
+        [Some 40; Some 20; Some 0; Some 40])%Q.
+Proof. vm_compute. reflexivity. Qed.
+Example C14_ex_waveform :      (* template 0 on its listed channels [1; 0; 2; 3] *)
+  option_map (fun y => map (map qred) (nth 0 (y_twave y) [])) ex_y =
+  Some [[Some 60; Some 0; Some 0; Some 0]; [Some (-45 # 2); Some 0; Some (15 # 2); Some 0]]%Q.
+Proof. vm_compute. reflexivity. Qed.
+Example C14_ex_nan_ids : model_nan_idx (x_st ex_x) (x_sc ex_x) = [2; 3].
+Proof. vm_compute. reflexivity. Qed.
+Example C14_ex_three_probes :
+  option_map (fun co => (C12.Model.co_map co, C12.Model.co_probe co,
+                         raw_ind (C12.Model.co_probe co) (C12.Model.co_map co),
+                         raw_ind_old (C12.Model.co_probe co) (C12.Model.co_map co)))
+             (C12.Model.channel_data [[2; 0; 1]; [1; 3; 0; 2]; [0; 1]]) =
+  Some ([2; 0; 1; 3; 5; 2; 4; 5; 6], [0; 0; 0; 1; 1; 1; 1; 2; 2], [2; 0; 1; 1; 3; 0; 2; 0; 1], [2; 0; 1; 1; 3; 0; 2; -2; -1]).
+Proof. vm_compute. reflexivity. Qed.
+Example C14_ex_checker :       (* tie between channels 0 and 2: either order passes; a far channel before a near one does not *)
+  listed_b (x_pos ex_x) (x_probes ex_x) 4 4 1 [1; 0; 2; 3] = true /\
+  listed_b (x_pos ex_x) (x_probes ex_x) 4 4 1 [1; 2; 0; 3] = true /\
+  listed_b (x_pos ex_x) (x_probes ex_x) 4 4 0 [0; 2; 1; 3] = false /\
+  listed_b (x_pos ex_x) (x_probes ex_x) 4 4 1 [0; 1; 2; 3] = false /\
+  listed_b (x_pos ex_x) (x_probes ex_x) 4 4 3 [3; 2; 0; 1] = true.
+Proof. vm_compute. repeat split. Qed.
